@@ -101,6 +101,9 @@ class SimTransport:
         if data:
             self.written += len(data)
             self.link.queues[self.side].append(bytes(data))
+            hook = getattr(self, "on_write", None)
+            if hook is not None:
+                hook(self, data)
 
     def writeSequence(self, seq):
         for d in seq:
